@@ -91,6 +91,34 @@ func ruleLookupTable(c *Ctx) {
 			continue
 		}
 		c.saw(c.funcName(fd))
+		// absence is visible at the first level of what is handed out: the resolver tells an absent member of a
+		// typed document by one nil test on the answer, so the address of a member that is itself a pointer, map
+		// or slice (never nil, whatever the member holds) would turn a dangling pointer into an empty value
+		nth := 0
+		ast.Inspect(fd.Body, func(nd ast.Node) bool {
+			if _, isLit := nd.(*ast.FuncLit); isLit {
+				return false
+			}
+			ret, ok := nd.(*ast.ReturnStmt)
+			if !ok || len(ret.Results) != 2 {
+				return true
+			}
+			u, ok := unparen(ret.Results[0]).(*ast.UnaryExpr)
+			if !ok || u.Op != token.AND {
+				return true
+			}
+			nth++
+			nilable := false
+			if t := c.typeOf(u.X); t != nil {
+				switch t.Underlying().(type) {
+				case *types.Pointer, *types.Map, *types.Slice, *types.Chan, *types.Signature:
+					nilable = true
+				}
+			}
+			c.ob(rule, fmt.Sprintf("%s:absence-at-first-level#%d", tname, nth), ret.Pos(), !nilable,
+				fmt.Sprintf("JSONLookup answers &%s, the address of a member that can itself be nil: the answer is never nil, so a pointer to the absent member is taken for a present, empty value", exprString(u.X)))
+			return true
+		})
 		st, ok := n.Underlying().(*types.Struct)
 		if !ok {
 			continue
